@@ -113,6 +113,12 @@ def byte_leaf(names):
     import re
 
     def leaf(t):
+        if t[0] == "ld" and len(t) >= 5 and t[3] in names and isinstance(t[4], tuple) and t[4][:1] == ("c",) and isinstance(t[2], int):
+            # a word load (read_u32_le / _be ...) of t[2] bytes at a constant offset of a named byte string
+            off, nb = t[4][1], t[2]
+            if t[1] == "le":
+                return [(t[3], 8 * off + j) for j in range(8 * nb)]
+            return [(t[3], 8 * (off + nb - 1 - j // 8) + j % 8) for j in range(8 * nb)]
         if t[0] == "elem" and isinstance(t[1], tuple) and t[1] and t[1][0] == "load" and t[1][1] in names and isinstance(t[2], int):
             return [(t[1][1], 8 * t[2] + j) for j in range(8)]
         if t[0] == "load":
